@@ -4,7 +4,7 @@ non-matching argument lists.  Same engine and oracle as C02 (shadow traits carry
 trait generics)."""
 from .progprops import run_prop, KINDS, PREFIX
 
-KINDS['C16'] = ['targs:generic', 'targs:concrete', 'targs:lifetime', 'targs:const', 'targs:bounded', 'targs:unsized_arg', 'targs:mixed', 'targs:default_omitted', 'targs:nested_unsized', 'targs:unsized_where', 'targs:unsized_nested_arg', 'targs:nested_arg', 'targs:reflexive_mix', 'targs:bounded_composite', 'combo', 'combo']
+KINDS['C16'] = ['targs:generic', 'targs:concrete', 'targs:lifetime', 'targs:const', 'targs:bounded', 'targs:unsized_arg', 'targs:mixed', 'targs:default_omitted', 'targs:nested_unsized', 'targs:unsized_where', 'targs:unsized_nested_arg', 'targs:nested_arg', 'targs:reflexive_mix', 'targs:bounded_composite', 'combo', 'combo', 'targs:repeated_arg', 'targs:nested_arg_wild']
 PREFIX['C16'] = ['C16_']
 
 
